@@ -1,4 +1,5 @@
 import BoltonsVerif.C07.Proofs
+import BoltonsVerif.C07.NavTie
 /-
 C07 — property theorems: `URL.navigate` = RFC 3986 section 5.2, normalised result.
 
@@ -74,7 +75,7 @@ theorem navigateWith_eq_rfc (honour : Bool) (b : URL) (r : Ref) (hb : AbsBase b)
     rcases hdf with h | h
     · exact Or.inl h
     · exact Or.inr ((dotFree_root segs).1 (hsegs ▸ h))
-  have hpath := navigate_path_eq_rfc b segs r hr hsegs hns b.toRef (by simp [hbase]) (by simp [hbase]) hdf'
+  have hpath := navigate_path_eq_rfc b segs r hr hsegs hns b.toRef (Or.inl (by simp [hbase])) (by simp [hbase]) hdf'
   have hquery := relQuery_eq_rfc honour b b.toRef r hr (by simp [hbase]) hcq hq
   rw [navigate_rel honour b r hb]
   have hN : (resolvePathParts (relParts b r)) = [] :: process [] (relSegs segs r) := by
@@ -410,7 +411,7 @@ theorem navigateWith_eq_normalized_rfc (honour : Bool) (b : URL) (r : Ref) (hb :
   obtain ⟨segs, hsegs⟩ := hb.rooted
   have hns : ∀ s ∈ segs, NoSlash s := fun s hs => hb.noSlash s (by simp [hsegs, hs])
   have hbase := toRef_rooted b segs hb.host_ne hsegs
-  have hpath := navigate_path_eq_normalized_rfc b segs r hr hsegs hns b.toRef (by simp [hbase]) (by simp [hbase])
+  have hpath := navigate_path_eq_normalized_rfc b segs r hr hsegs hns b.toRef (Or.inl (by simp [hbase])) (by simp [hbase])
   have hquery := relQuery_eq_rfc honour b b.toRef r hr (by simp [hbase]) hcq hq
   rw [navigate_rel honour b r hb]
   have hN : (resolvePathParts (relParts b r)) = [] :: process [] (relSegs segs r) := by
@@ -436,8 +437,8 @@ theorem resolve_target_path_normal (b : URL) (r : Ref) (hb : AbsBase b) (hr : Re
     rcases hdf with h | h
     · exact Or.inl h
     · exact Or.inr ((dotFree_root segs).1 (hsegs ▸ h))
-  have h1 := navigate_path_eq_rfc b segs r hr hsegs hns b.toRef (by simp [hbase]) (by simp [hbase]) hdf'
-  have h2 := navigate_path_eq_normalized_rfc b segs r hr hsegs hns b.toRef (by simp [hbase]) (by simp [hbase])
+  have h1 := navigate_path_eq_rfc b segs r hr hsegs hns b.toRef (Or.inl (by simp [hbase])) (by simp [hbase]) hdf'
+  have h2 := navigate_path_eq_normalized_rfc b segs r hr hsegs hns b.toRef (Or.inl (by simp [hbase])) (by simp [hbase])
   unfold Ref.normalized
   rw [← h2, h1]
 
@@ -604,6 +605,155 @@ example : (URL.navigateAllWith true exBaseMulti
       (["../x/./y?k=1&k".toList, "?".toList, "#top".toList, "..//z".toList].map URL.ofText)).toText
     = "http://a//z".toList := by decide
 
+/-! ### bases WITHOUT a host (round 3c): `file:///a/b`, `foo:/a/b`, `urn:/x` - RFC 5.2.3 "merge" with an empty or an
+    undefined base authority -/
+
+/-- a base without a host whose path is rooted and NOT empty (at least one segment after the root marker: without a
+    host the code does not re-root the merged path - and for an undefined authority neither does RFC 5.2.3), scheme
+    in lower case.  Userinfo / port are arbitrary (boltons keeps them even without a host). -/
+structure HostlessBase (b : URL) : Prop where
+  host_nil : b.host = []
+  rooted : ∃ s segs, b.parts = [] :: s :: segs
+  noSlash : ∀ s ∈ b.parts, NoSlash s
+  lowerScheme : lower b.scheme = b.scheme
+
+/-- `B` is the base as RFC 3986 sees it: scheme, path and query of `b`.  The authority is left open - undefined for
+    `foo:/a/b`, defined and empty for `file:///a/b`; 5.2.2 only hands it on and 5.2.3 does not look at it when the
+    base path is not empty. -/
+def RefOfBase (b : URL) (B : Ref) : Prop :=
+  B.scheme = optOfStr b.scheme ∧ B.path = b.pathText ∧ B.query = optOfStr (queryText b.query)
+
+instance (b : URL) (B : Ref) : Decidable (RefOfBase b B) := by unfold RefOfBase; infer_instance
+
+/-- **navigate = RFC 5.2 for bases without a host**, component by component (how `to_text()` writes an empty
+    authority is property C06's business, so the statement is about the components): scheme, path, query and
+    fragment of the result are those of the RFC target, the target's authority is the base's, and the result has
+    no host and the base's userinfo / port.  Either version of the code; same side conditions as
+    `navigateWith_eq_rfc`. -/
+theorem navigateWith_eq_rfc_hostless (honour : Bool) (b : URL) (B r : Ref) (hb : HostlessBase b)
+    (hB : RefOfBase b B) (hr : RelRef r) (hdf : r.path ≠ [] ∨ DotFree b.parts) (hcq : CanonQ r.query)
+    (hq : honour = true ∨ ¬ (r.path = [] ∧ r.query = some [] ∧ queryText b.query ≠ [])) :
+    optOfStr (URL.navigateWith honour b (URL.ofRelRef r)).scheme = (resolve B r).scheme ∧
+    (resolve B r).authority = B.authority ∧
+    ((URL.navigateWith honour b (URL.ofRelRef r)).host = [] ∧
+      (URL.navigateWith honour b (URL.ofRelRef r)).user = b.user ∧
+      (URL.navigateWith honour b (URL.ofRelRef r)).pass = b.pass ∧
+      (URL.navigateWith honour b (URL.ofRelRef r)).port = b.port) ∧
+    (URL.navigateWith honour b (URL.ofRelRef r)).pathText = (resolve B r).path ∧
+    dropEmpty (optOfStr (queryText (URL.navigateWith honour b (URL.ofRelRef r)).query)) = dropEmpty (resolve B r).query ∧
+    dropEmpty (optOfStr (URL.navigateWith honour b (URL.ofRelRef r)).fragment) = dropEmpty (resolve B r).fragment := by
+  obtain ⟨s0, segs0, hsegs⟩ := hb.rooted
+  have hns : ∀ s ∈ s0 :: segs0, NoSlash s := fun s hs => hb.noSlash s (by rw [hsegs]; exact List.mem_cons_of_mem _ hs)
+  have hlh : lower b.host = b.host := by rw [hb.host_nil]; rfl
+  have hpathB : B.path = flat (s0 :: segs0) := by rw [hB.2.1, URL.pathText, hsegs, joinSlash_root]
+  have hdf' : r.path ≠ [] ∨ DotFree (s0 :: segs0) := by
+    rcases hdf with h | h
+    · exact Or.inl h
+    · exact Or.inr ((dotFree_root _).1 (hsegs ▸ h))
+  have hpath := navigate_path_eq_rfc b (s0 :: segs0) r hr hsegs hns B (Or.inr (by simp)) hpathB hdf'
+  have hquery := relQuery_eq_rfc honour b B r hr hB.2.2 hcq hq
+  rw [navigate_rel_rooted honour b r (s0 :: segs0) hsegs (Or.inr (by simp)) hb.lowerScheme hlh]
+  refine ⟨?_, resolve_rel_authority _ _ hr, ⟨hb.host_nil, rfl, rfl, rfl⟩, ?_, hquery, ?_⟩
+  · rw [resolve_rel_scheme _ _ hr, hB.1]; rfl
+  · rw [URL.pathText, relResult_parts]; exact hpath
+  · rw [resolve_rel_fragment _ _ hr]; exact dropEmpty_optOfStr_getD r.fragment
+
+/-- `file:///a/b/c?q` (authority defined and empty) and `foo:/a/b` (authority undefined) -/
+def exBaseFile : URL := URL.ofComponents (some "file".toList) true [] [] [] false 0 "/a/b/c".toList (some "q".toList) none
+def exBaseFoo : URL := URL.ofComponents (some "foo".toList) false [] [] [] false 0 "/a/b".toList none none
+
+example : HostlessBase exBaseFile ∧ HostlessBase exBaseFoo :=
+  ⟨⟨rfl, ⟨_, _, rfl⟩, by decide, by decide⟩, ⟨rfl, ⟨_, _, rfl⟩, by decide, by decide⟩⟩
+example : RefOfBase exBaseFile ⟨some "file".toList, some [], "/a/b/c".toList, some "q".toList, none⟩ ∧
+    RefOfBase exBaseFoo ⟨some "foo".toList, none, "/a/b".toList, none, none⟩ := by decide
+example : recompose (resolve ⟨some "file".toList, some [], "/a/b/c".toList, some "q".toList, none⟩ exRef)
+    = "file:///a//g/?y#".toList := by decide
+example : (URL.navigateWith true exBaseFile (URL.ofRelRef exRef)).pathText = "/a//g/".toList ∧
+    (URL.navigateWith true exBaseFoo (URL.ofRelRef ⟨none, none, "../../../x/.".toList, none, none⟩)).pathText
+      = "/x/".toList := by decide
+
+/-- ... and as a statement about the printed text (`toRef`) for a base whose scheme takes no network location
+    (`foo:/a/b`, `urn:/x`: the authority is undefined before and after; the C06 question how an EMPTY authority is
+    printed does not arise) -/
+theorem navigateWith_eq_rfc_nonetloc (honour : Bool) (b : URL) (r : Ref) (hb : HostlessBase b)
+    (hu : b.user = []) (hsep : b.netlocSep = false) (hnn : b.usesNetloc = false) (hr : RelRef r)
+    (hdf : r.path ≠ [] ∨ DotFree b.parts) (hcq : CanonQ r.query)
+    (hq : honour = true ∨ ¬ (r.path = [] ∧ r.query = some [] ∧ queryText b.query ≠ [])) :
+    (URL.navigateWith honour b (URL.ofRelRef r)).toRef.canon = (resolve b.toRef r).canon := by
+  have hauthT : ∀ u : URL, u.user = [] → u.host = [] → u.authorityText = [] := by
+    intro u h1 h2; simp [URL.authorityText, h1, h2]
+  have hbRef : b.toRef =
+      ⟨optOfStr b.scheme, none, b.pathText, optOfStr (queryText b.query), optOfStr b.fragment⟩ := by
+    unfold URL.toRef
+    simp [hauthT b hu hb.host_nil, hnn]
+  have hB : RefOfBase b b.toRef := by rw [hbRef]; exact ⟨rfl, rfl, rfl⟩
+  have h := navigateWith_eq_rfc_hostless honour b b.toRef r hb hB hr hdf hcq hq
+  obtain ⟨hs, ha, ⟨hh, hu', _, _⟩, hp, hqq, hf⟩ := h
+  have hnn' : (URL.navigateWith honour b (URL.ofRelRef r)).usesNetloc = false := by
+    obtain ⟨s0, segs0, hsegs⟩ := hb.rooted
+    have hlh : lower b.host = b.host := by rw [hb.host_nil]; rfl
+    rw [navigate_rel_rooted honour b r (s0 :: segs0) hsegs (Or.inr (by simp)) hb.lowerScheme hlh]
+    rw [← hnn]
+    simp [URL.usesNetloc, relResult, hsep]
+    by_cases h1 : (schemePort? b.scheme).isSome = true <;> by_cases h2 : inNoNetloc b.scheme = true <;>
+      by_cases h3 : (schemePort? (afterLastPlus b.scheme)).isSome = true <;> simp [h1, h2, h3]
+  have hnRef : (URL.navigateWith honour b (URL.ofRelRef r)).toRef =
+      ⟨optOfStr (URL.navigateWith honour b (URL.ofRelRef r)).scheme, none,
+        (URL.navigateWith honour b (URL.ofRelRef r)).pathText,
+        optOfStr (queryText (URL.navigateWith honour b (URL.ofRelRef r)).query),
+        optOfStr (URL.navigateWith honour b (URL.ofRelRef r)).fragment⟩ := by
+    unfold URL.toRef
+    simp [hauthT _ (hu'.trans hu) hh, hnn']
+  rw [hnRef]
+  simp only [Ref.canon, Ref.mk.injEq]
+  refine ⟨hs, ?_, hp, ?_, ?_⟩
+  · rw [ha, hbRef]
+  · rw [dropEmpty_optOfStr] at hqq ⊢; exact hqq
+  · rw [dropEmpty_optOfStr] at hf ⊢; exact hf
+
+example : HostlessBase exBaseFoo ∧ exBaseFoo.user = [] ∧ exBaseFoo.netlocSep = false ∧ exBaseFoo.usesNetloc = false := by
+  refine ⟨⟨rfl, ⟨_, _, rfl⟩, by decide, by decide⟩, rfl, rfl, by decide⟩
+example : (URL.navigateWith true exBaseFoo (URL.ofRelRef exRef)).toText = "foo://g/?y".toList := by decide
+
+/-! ### the code under test (round 3c): /repo has the repair (35bb52f), so the FULL statement is the one that applies -/
+
+/-- The source under test HAS the repair of known finding C07-empty-query: the flag is regenerated on every run by
+    evaluating `URL.navigate` of the tree under test on the finding's probes (`C07.Gen.navHonoursEmptyQuery`), and
+    this `rfl` stops checking - naming this theorem and the three below - as soon as an edit loses the repair.  The
+    unrepaired version of the model (`URL.navigateWith false`) is kept as a REGRESSION DETECTOR only: after such an
+    edit model and code still agree (the correspondence stays in step) and the oracle reports the `?` input. -/
+theorem navigate_is_repaired : C07.Gen.navHonoursEmptyQuery = true := rfl
+
+/-- **the full statement about `URL.navigate` of the code under test** (no `_partial`, no restriction on the
+    reference's query marker) -/
+theorem navigate_eq_rfc (b : URL) (r : Ref) (hb : AbsBase b) (hr : RelRef r)
+    (hdf : r.path ≠ [] ∨ DotFree b.parts) (hcq : CanonQ r.query) :
+    (b.navigate (URL.ofRelRef r)).toRef.canon = (resolve b.toRef r).canon :=
+  navigate_eq_rfc_of_repair navigate_is_repaired b r hb hr hdf hcq
+
+/-- **chained navigation of the code under test = resolving step by step**, any references without scheme/authority -/
+theorem chained_eq_rfc (b : URL) (rs : List Ref) (hb : AbsBase b) (hd : DotFree b.parts)
+    (hrs : ∀ r ∈ rs, RelRef r ∧ CanonQ r.query) :
+    (b.navigateAll (rs.map URL.ofRelRef)).toRef.canon = (resolveAll b.toRef rs).canon := by
+  have e : ∀ ds : List URL, b.navigateAll ds = URL.navigateAllWith true b ds := by
+    intro ds
+    unfold URL.navigateAll URL.navigateAllWith URL.navigate
+    rw [navigate_is_repaired]
+  rw [e]
+  exact chained_eq_rfc_repaired b rs hb hd hrs
+
+/-- ... and for a reference given as a text -/
+theorem navigate_text_eq_rfc (b : URL) (t : Str) (hb : AbsBase b) (ht : RelText t)
+    (hdf : (rfcParse t).path ≠ [] ∨ DotFree b.parts) (hcq : CanonQ (rfcParse t).query) :
+    (b.navigate (URL.ofText t)).toRef.canon = (resolve b.toRef (rfcParse t)).canon := by
+  unfold URL.navigate
+  rw [navigate_is_repaired]
+  exact navigate_text_eq_rfc_repaired b t hb ht hdf hcq
+
+example : (exBaseMulti.navigate (URL.ofText "?".toList)).toText = "http://a/b/c".toList := by decide
+example : (exBaseMulti.navigateAll ([exRefMulti, ⟨none, none, [], some [], some "s".toList⟩].map URL.ofRelRef)).toText
+    = "http://a/g#s".toList := by decide
+
 /-! ### navigate's glue: which component comes from where (any base, any non-replacing reference, either version) -/
 
 /-- the fragment is never inherited: the result carries the reference's fragment (none if it has none) -/
@@ -672,5 +822,152 @@ theorem navigate_result_normal (b dest : URL) (h : ¬ (dest.scheme ≠ [] ∧ de
   unfold URL.navigate URL.navigateWith
   rw [if_neg h]
   exact normalize_idempotent _ true
+
+/-! ### SOURCE TIE of `URL.navigate`'s decision logic (round 3c; see NavTie.lean) -/
+
+/-- **the values the SOURCE of `navigate` computes are the model's**: the translated normal form of the method,
+    applied to the components of two URL objects, returns the components of `dest` itself for a replacing absolute
+    reference and otherwise exactly the nine values (`modelCore`) the model's `navigateWith true` hands to
+    `from_parts` / `ret.family` - for ALL object states.  The proof only case-splits on the atomic facts the method
+    can look at (reference replacing? path empty / rooted? base host? base directory rooted? reference parameters /
+    query marker?) and lets `simp` evaluate both sides, so re-ordered or re-nested branches survive. -/
+theorem src_navigate_core_eq_model (self dest : URL) :
+    srcCore self dest = if dest.scheme ≠ [] ∧ dest.host ≠ [] then coreOf dest else modelCore self dest := by
+  obtain ⟨ds, dsep, du, dpw, dh, dv6, dport, dparts, dq, dhq, df⟩ := dest
+  obtain ⟨ss, ssep, su, spw, sh, sv6, sport, sparts, sq, shq, sf⟩ := self
+  simp only [srcCore, coreOf, NavSrc.navigate_core, NavSrc.navigate_core.body, modelCore, URL.pathText, orStr,
+    nav_slice_take_one_chars, nav_slice_take_one_strs, nav_slice_dropLast_strs, take_one_eq_slash, take_one_ne_root,
+    take_one_eq_root, cast_ite_port, fam_ite]
+  by_cases habs : ds ≠ [] ∧ dh ≠ []
+  · simp [habs.1, habs.2]
+  · have habs' : ¬ (¬ ds = [] ∧ ¬ dh = []) := habs
+    by_cases hp : joinSlash dparts = []
+    · by_cases hq : dq = [] <;> cases dhq <;> simp [habs', hp, hq]
+    · by_cases hsl : (joinSlash dparts).head? = some '/'
+      · simp [habs', hp, hsl]
+      · by_cases hh : sh = [] <;> by_cases hr : sparts.dropLast.head? = some [] <;>
+          simp [habs', hp, hsl, hh, hr]
+
+/-- ... hence `from_parts(**values)`, `ret.family = …`, `ret.normalize()` applied to what the source computes IS the
+    model's navigate, for every reference that does not replace the base -/
+theorem src_navigate_eq_model (self dest : URL) (h : ¬ (dest.scheme ≠ [] ∧ dest.host ≠ [])) :
+    ofCore (srcCore self dest) = URL.navigateWith true self dest := by
+  rw [src_navigate_core_eq_model, if_neg h, ofCore_modelCore self dest h]
+
+/-- ... and a reference with its own scheme and host is handed back as it is ("replaces the base entirely") -/
+theorem src_navigate_replacing (self dest : URL) (hs : dest.scheme ≠ []) (hh : dest.host ≠ []) :
+    srcCore self dest = coreOf dest := by
+  rw [src_navigate_core_eq_model, if_pos ⟨hs, hh⟩]
+
+/-- **the RFC statement about what the source computes**: for a base with a host and any reference without scheme and
+    authority, `from_parts` + `normalize()` of the values computed by the translated source renders to the RFC 3986
+    5.2 target -/
+theorem src_navigate_eq_rfc (b : URL) (r : Ref) (hb : AbsBase b) (hr : RelRef r)
+    (hdf : r.path ≠ [] ∨ DotFree b.parts) (hcq : CanonQ r.query) :
+    (ofCore (srcCore b (URL.ofRelRef r))).toRef.canon = (resolve b.toRef r).canon := by
+  rw [src_navigate_eq_model b (URL.ofRelRef r) (by simp [URL.ofRelRef, URL.ofComponents])]
+  exact navigate_eq_rfc_repaired b r hb hr hdf hcq
+
+/-- non-vacuity: the translated source on `http://u@a:81/b/c/d;p?q` + `.././/g/.?y#` -/
+example : (ofCore (srcCore exBase (URL.ofRelRef exRef))).toText = "http://u@a:81/b//g/?y".toList := by decide
+example : srcCore exBase exAbs = coreOf exAbs := src_navigate_replacing _ _ (by decide) (by decide)
+
+/-! ### chained navigation from a base without a host (round 3c) -/
+
+theorem process_ne_nil (stack segs : List Str) (h : segs ≠ []) : process stack segs ≠ [] := by
+  rcases List.eq_nil_or_concat segs with hs | ⟨init, x, hs⟩
+  · exact absurd hs h
+  · subst hs
+    unfold process
+    simp only [List.concat_eq_append, List.foldl_append, List.foldl, List.getLast?_append, List.getLast?_singleton]
+    by_cases h1 : x = dot
+    · simp [h1]
+    · by_cases h2 : x = dotdot
+      · simp [h2]
+      · simp [h1, h2, pstep]
+
+/-- the class of hostless bases is closed under navigation, and the result is dot-free -/
+theorem navigateWith_closed_hostless (honour : Bool) (b : URL) (r : Ref) (hb : HostlessBase b) :
+    HostlessBase (URL.navigateWith honour b (URL.ofRelRef r)) ∧
+      DotFree (URL.navigateWith honour b (URL.ofRelRef r)).parts := by
+  obtain ⟨s0, segs0, hsegs⟩ := hb.rooted
+  have hlh : lower b.host = b.host := by rw [hb.host_nil]; rfl
+  rw [navigate_rel_rooted honour b r (s0 :: segs0) hsegs (Or.inr (by simp)) hb.lowerScheme hlh]
+  have hparts : (relResult honour b r).parts = [] :: process [] (relSegs (s0 :: segs0) r) := by
+    rw [relResult_parts, relParts_eq b r (s0 :: segs0) hsegs, resolvePathParts_root]
+  have hne : relSegs (s0 :: segs0) r ≠ [] := by
+    unfold relSegs
+    split
+    · simp
+    · split
+      · exact splitSlash_ne_nil _
+      · intro h
+        have := splitSlash_ne_nil r.path
+        simp at h
+        exact this h.2
+  refine ⟨⟨hb.host_nil, ?_, ?_, hb.lowerScheme⟩, ?_⟩
+  · rw [hparts]
+    cases hpr : process [] (relSegs (s0 :: segs0) r) with
+    | nil => exact absurd hpr (process_ne_nil _ _ hne)
+    | cons a t => exact ⟨a, t, rfl⟩
+  · intro s hs
+    rw [relResult_parts] at hs
+    rcases resolvePathParts_mem _ s hs with h | h
+    · rw [relParts_eq b r (s0 :: segs0) hsegs] at h
+      simp only [List.mem_cons] at h
+      rcases h with rfl | h
+      · simp [NoSlash]
+      · exact relSegs_noSlash (s0 :: segs0) r
+          (fun x hx => hb.noSlash x (by rw [hsegs]; exact List.mem_cons_of_mem _ hx)) s h
+    · subst h; simp [NoSlash]
+  · rw [relResult_parts]; exact resolvePathParts_dotFree _
+
+/-- "the URL object `n` stands for the RFC reference `T`" for hostless URLs: scheme and path exactly, query up to the
+    empty marker (the authority - undefined or empty - is not represented by the object) -/
+def HostlessSim (n : URL) (T : Ref) : Prop :=
+  optOfStr n.scheme = T.scheme ∧ n.pathText = T.path ∧ dropEmpty (optOfStr (queryText n.query)) = dropEmpty T.query
+
+instance (n : URL) (T : Ref) : Decidable (HostlessSim n T) := by unfold HostlessSim; infer_instance
+
+/-- **chained navigation from a hostless base = resolving step by step** (RFC 5.2 applied to each reference in turn),
+    either version of the code; the authority of the RFC target stays the base's (undefined or empty) throughout -/
+theorem chainedWith_eq_rfc_hostless (honour : Bool) (rs : List Ref) : ∀ (b : URL) (B : Ref), HostlessBase b →
+    DotFree b.parts → HostlessSim b B →
+    (∀ r ∈ rs, RelRef r ∧ (honour = true ∨ r.query ≠ some []) ∧ CanonQ r.query) →
+    HostlessSim (URL.navigateAllWith honour b (rs.map URL.ofRelRef)) (resolveAll B rs) ∧
+      (resolveAll B rs).authority = B.authority ∧
+      (URL.navigateAllWith honour b (rs.map URL.ofRelRef)).host = [] := by
+  induction rs with
+  | nil => intro b B hb _ hs _; exact ⟨by simpa [URL.navigateAllWith, resolveAll] using hs, rfl, hb.host_nil⟩
+  | cons r rest ih =>
+    intro b B hb hd hs hrs
+    have hr := hrs r (by simp)
+    -- the base as the RFC sees it, with exactly the object's query text
+    let B' : Ref := ⟨optOfStr b.scheme, B.authority, b.pathText, optOfStr (queryText b.query), B.fragment⟩
+    have hB' : RefOfBase b B' := ⟨rfl, rfl, rfl⟩
+    have hcan : B'.canon = B.canon := by
+      simp only [Ref.canon, Ref.mk.injEq, B']
+      exact ⟨hs.1, trivial, hs.2.1, hs.2.2, trivial⟩
+    have hcong := resolve_congr B' B r hr.1 hcan
+    have step := navigateWith_eq_rfc_hostless honour b B' r hb hB' hr.1 (Or.inr hd) hr.2.2
+      (hr.2.1.elim Or.inl (fun h => Or.inr (fun h' => h h'.2.1)))
+    obtain ⟨h1, h2, _, h4, h5, _⟩ := step
+    have hsim : HostlessSim (URL.navigateWith honour b (URL.ofRelRef r)) (resolve B r) := by
+      refine ⟨?_, ?_, ?_⟩
+      · rw [h1]; simpa [Ref.canon] using congrArg Ref.scheme hcong
+      · rw [h4]; simpa [Ref.canon] using congrArg Ref.path hcong
+      · rw [h5]; simpa [Ref.canon] using congrArg Ref.query hcong
+    have hc := navigateWith_closed_hostless honour b r hb
+    have := ih (URL.navigateWith honour b (URL.ofRelRef r)) (resolve B r) hc.1 hc.2 hsim
+      (fun r' hr' => hrs r' (by simp [hr']))
+    refine ⟨by simpa [URL.navigateAllWith, resolveAll] using this.1, ?_, by simpa [URL.navigateAllWith] using this.2.2⟩
+    have ha : (resolve B r).authority = B.authority := resolve_rel_authority _ _ hr.1
+    simpa [resolveAll, ha] using this.2.1
+
+example : HostlessBase exBaseFile ∧ DotFree exBaseFile.parts ∧
+    HostlessSim exBaseFile ⟨some "file".toList, some [], "/a/b/c".toList, some "q".toList, none⟩ := by
+  refine ⟨⟨rfl, ⟨_, _, rfl⟩, by decide, by decide⟩, by decide, by decide⟩
+example : (URL.navigateAllWith true exBaseFile ([exRef, ⟨none, none, [], some [], none⟩, ⟨none, none, "../../../x".toList, none, none⟩].map
+    URL.ofRelRef)).pathText = "/x".toList := by decide
 
 end C07
